@@ -46,6 +46,10 @@ type Census struct {
 	NotBuilt    []NotBuiltReg // registrations made from init() of a file that a default build does not compile
 }
 
+type dirEnt string
+
+func (d dirEnt) Name() string { return string(d) }
+
 type NotBuiltReg struct {
 	Registration
 	Why string
@@ -99,11 +103,22 @@ func TakeCensus(repo string) (*Census, error) {
 		return nil, err
 	}
 	fset := token.NewFileSet()
-	for _, e := range ents {
-		if !e.IsDir() {
-			continue
+	// every directory below v3/lints, at any depth (a lint package nested inside another one is a lint package too)
+	var dirs []dirEnt
+	_ = ents
+	_ = filepath.WalkDir(lintsDir, func(path string, d os.DirEntry, err error) error {
+		if err != nil || !d.IsDir() || path == lintsDir {
+			return nil
 		}
-		files, _ := filepath.Glob(filepath.Join(lintsDir, e.Name(), "*.go"))
+		if d.Name() == "testdata" || strings.HasPrefix(d.Name(), ".") || strings.HasPrefix(d.Name(), "_") {
+			return filepath.SkipDir
+		}
+		rel, _ := filepath.Rel(lintsDir, path)
+		dirs = append(dirs, dirEnt(filepath.ToSlash(rel)))
+		return nil
+	})
+	for _, e := range dirs {
+		files, _ := filepath.Glob(filepath.Join(lintsDir, filepath.FromSlash(e.Name()), "*.go"))
 		has := false
 		for _, f := range files {
 			notBuilt := ""
